@@ -221,7 +221,7 @@ impl<S: ClientStream> AgentClient<S> {
         let mut keys = Vec::new();
         let resp = self.stream.request(&buf)?;
 
-        if resp[0] == msg::IDENTITIES_ANSWER {
+        if !resp.is_empty() && resp[0] == msg::IDENTITIES_ANSWER {
             let mut r = resp.reader(1);
             let n = r.read_u32()?;
 
@@ -288,6 +288,10 @@ impl<S: ClientStream> AgentClient<S> {
         let _t = resp.read_string()?;
         let sig = resp.read_string()?;
 
+        // Nb. The signature comes from the agent, make sure it is of the expected length.
+        if sig.len() != 64 {
+            return Err(Error::AgentProtocolError);
+        }
         let mut out = [0; 64];
         out.copy_from_slice(sig);
 
